@@ -54,6 +54,9 @@ package kvindex
 //@   modifies MapD.Str MapN MapV. SH. alloc KV.
 //@   requires nonnil: idx != nil && idx.Fields != nil && idx.KV != nil
 //@   ensures registered: has(idx.Fields, path)
+//@   let fk = FieldKey(path)
+//@   ensures persisted: result == nil ==> kvhas(fk)
+//@   ensures only: forall k:Str :: k != fk ==> ((kvhas(k) <==> old(kvhas(k))) && kvval(k) == old(kvval(k)))
 //@   ensures kvframe: forall k:Str :: !idxkey(k) ==> ((kvhas(k) <==> old(kvhas(k))) && kvval(k) == old(kvval(k)))
 
 // ---- C04: the in-memory registry is a function of the store ------------------------
@@ -73,3 +76,34 @@ package kvindex
 //@   ensures rep1: forall k:Str :: kvhas(k) && hasprefix(k, "f") ==> has(result.Fields, slnth(bsplit(k, sep0), 1))
 //@   ensures rep2: forall f:Str :: has(result.Fields, f) ==> (exists k:Str :: kvhas(k) && hasprefix(k, "f") && slnth(bsplit(k, sep0), 1) == f)
 //@   ensures store: same(kvdom(), old(kvdom())) && same(kvvals(), old(kvvals()))
+
+// ---- C09: term encoding -----------------------------------------------------------
+// Strings are their own bytes; a float64 is the 8 big-endian bytes of its IEEE-754 bit
+// pattern (be64(f64bits(v))); anything else is not indexable.
+//@ func GetTermBytes
+//@   property C09
+//@   option prelude=ieee,json
+//@   nopanic
+//@   pure
+//@   ensures str: isAStr(term) ==> result.0 == astr(term) && result.1 == TermString
+//@   ensures num: isANum(term) ==> result.0 == be64(f64bits(anum(term))) && result.1 == TermNumber
+//@   ensures other: !isAStr(term) && !isANum(term) ==> result.1 == TermUnknown
+
+//@ func GetBytesTerm
+//@   property C09
+//@   option prelude=ieee,json
+//@   nopanic
+//@   pure
+//@   ensures str: ttype == TermString ==> isAStr(result) && astr(result) == val
+//@   ensures num: ttype == TermNumber ==> isANum(result) && same(anum(result), f64frombits(un64(val)))
+//@   ensures other: ttype != TermString && ttype != TermNumber ==> result == nil
+
+// decoding an encoded term gives the term back (all strings, all non-NaN numbers)
+//@ lemma term.roundtrip
+//@   property C09
+//@   option prelude=ieee,json
+//@   option pkg=kvindex
+//@   params s:string f:float64
+//@   requires finite: !isnan(f)
+//@   ensures str: astr(GetBytesTerm(GetTermBytes(AStr(s)).0, GetTermBytes(AStr(s)).1)) == s
+//@   ensures num: same(anum(GetBytesTerm(GetTermBytes(ANum(f)).0, GetTermBytes(ANum(f)).1)), f)
